@@ -124,7 +124,7 @@ CLAIMED = {
         "the program forms C06 names -- eager, filter_jit, vmap over states, rollout (scan), filter_vmap over a constructor parameter, a stepper constructed inside a jit-compiled rollout, RepeatedStepper, one stepper object called by several simulated callers -- for every stepper class",
         "'Compiling or mapping gives the same numbers' cannot depend on what was traced, compiled or constructed before or concurrently (stale or leaked trace artefacts, first-use effects, cross-caller leakage).",
         "the numerical equality between the forms over all inputs (translation validation / differential testing).",
-        "Decides order-of-compilation / trace-leak / cross-caller isolation of the program forms (a necessary condition of C06). Quick tier samples 28 of ~140 configurations per VERIF_SEED; thorough uses all.",
+        "Decides order-of-compilation / trace-leak / cross-caller isolation of the program forms (a necessary condition of C06). Quick tier samples 16 of ~140 configurations per VERIF_SEED; thorough uses all.",
     ),
     "C07": claim(
         "the gradient (of a squared-norm loss through one step) and JVP programs of every stepper class",
